@@ -163,6 +163,10 @@ func VH_C04_once(kind, nrules, nact, cfg int) {
 			}
 		}
 		vassert(failed == ran1, "failed-action-has-non-complete-disposition")
+		if !serial {
+			// the values list reports exactly the completed executions
+			vassert(work != nil && len(work.Values) == complete, "values-list-reports-results")
+		}
 		if serial {
 			// with serial actions the walk stops at the failed node and returns it
 			vassert(cnd != nil || ran1 == 0, "serial-failure-stops-the-walk")
